@@ -45,7 +45,9 @@ func init() {
 		Run:     runC13,
 		Require: []string{"schedules", "schedules_3p", "schedules_2p", "locked_errors", "contended_schedules", "retries_seen", "chains", "concurrent_open_rounds", "opens_failed_by_fault", "chain_recoveries", "chain_clean_opens", "competing_open_rejected"},
 		Exhaustive: func(tier string, stats map[string]int64) bool {
-			return tier == "thorough" && stats["subtrees_truncated"] == 0
+			// the 2-participant scenarios and (thorough) A:Close || B:Open || C:Open are enumerated completely; the larger
+			// 3-participant scenario is budgeted per subtree, so the run as a whole is not exhaustive
+			return false
 		},
 	})
 }
@@ -416,9 +418,11 @@ func runC13(c *core.Ctx) {
 	budget := 150
 	name := "3p-close-open-open"
 	if c.Thorough() {
-		budget = 0
+		budget = 0 // exhaustive
 		if c.Case%4 >= 2 {
+			// the larger scenario has millions of schedules: a budget per assigned prefix subtree (reported as truncated)
 			name = "3p-closeopen-openclose"
+			budget = 2500
 		}
 	}
 	shards := ncases / 2
